@@ -138,6 +138,29 @@ def wl_refprover(ctx, config):
             if cls == "reserved_bit":
                 t = bytearray(pr["proof"]); t[0] &= 0x7F; vcase(ctx, config, C, Co, H, Ho, bytes(t), extra, "refprover:reserved_bit_cleared")
 
+def wl_degenerate_members(ctx, config):
+    """ring signatures that close although a FORGED scalar is exactly 0, or although a ring member (not the signer's) is the point at
+    infinity - both must be rejected at every flat index of every ring (the checks are per member, not per ring)"""
+    rng = ctx.rng
+    for it in range(ctx.n(48, 900)):
+        mant = rng.choice((2, 3, 4, 4, 5, 6)); exp = 0; v = rng.randrange(1 << mant); blind = rng.randrange(1, n); extra = pools.rbytes(rng, rng.choice((0, 5)))
+        rsz = rp.layout(mant); ring = rng.randrange(len(rsz))
+        if it % 2 == 0:
+            H, Ho = gen_pair(ctx, config, rng)
+            pr = rp.make_proof(v, blind, H, exp, mant, 0, extra, rng, small=False, forged_override={(ring, j): 0 for j in range(rsz[ring]) if rng.random() < 0.7})
+            cls = "forged_scalar_zero:ring%d_of_%d" % (ring, len(rsz))
+        else:
+            if len(rsz) < 2: continue
+            ring = rng.randrange(len(rsz) - 1); h = rng.randrange(1, n); H = mulG(h); Ho = gen_obj(ctx, config, H); jp = rng.randrange(rsz[ring])
+            pr = rp.make_proof(v, blind, H, exp, mant, 0, extra, rng, small=False, bl_override={ring: (lambda dg, w, jp=jp, h=h: ((jp - dg) * w * h) if jp != dg else rng.randrange(1, n))})
+            cls = "ring_member_infinity:ring%d_of_%d" % (ring, len(rsz))
+        if pr is None or Ho is None: continue
+        Co = commit_obj(ctx, config, pr["C"])
+        if Co is None: continue
+        has_zero = any(x == 0 for x in pr["scalars"]); has_inf = any(P is None for r_ in pr["pubs"] for P in r_)
+        exp_model = vcase(ctx, config, pr["C"], Co, H, Ho, pr["proof"], extra, "degenerate:" + cls + (":present" if (has_zero or has_inf) else ":absent"), also_info=True)
+        if has_zero or has_inf: ctx.check(exp_model is None, "model:degenerate_member_accepted_by_model", cls, config)
+
 def wl_smallx(ctx, config):
     """digit commitment with x0 < 2^32+977 under a generator chosen by the prover: canonical encoding must verify, x0 + p must not"""
     rng = ctx.rng
@@ -191,6 +214,7 @@ def wl_garbage(ctx, config):
 def run(ctx):
     for i, config in enumerate(ctx.configs):
         wl_smallx(ctx, config)
+        wl_degenerate_members(ctx, config)
         if ctx.quick and i > 0: continue          # quick: the 32-bit-limb build only gets the coordinate-range workload
         wl_refprover(ctx, config)
         wl_libproofs(ctx, config)
